@@ -1692,6 +1692,7 @@ class ScenarioOutline(Scenario):
                     # -- FAIL-EARLY: Stop after first failure.
                     break
         runner.context._set_root_attribute("active_outline", None)
+        self.clear_status()  # -- ENFORCE: compute_status() after run.
         return failed_count > 0
 
 
